@@ -67,7 +67,8 @@ def observed_sched(world, r, desc, prev):
 
 
 def run_rerun(case):
-    desc = C.multi_project(case["nfiles"], case["structs"])
+    desc = C.multi_project(case["nfiles"], case["structs"], names=(C.TIE_NAMES if case.get("tienames") else None),
+                           events_each=bool(case.get("events_each")))
     if case.get("layout") == "onefile":
         # all commands (and structs) in one source file: the discovery order is the source order
         one = {"path": "all.rs", "structs": [], "commands": [], "events": []}
@@ -506,6 +507,83 @@ def alternation_cases(tier, rng):
                       "edits": rng.sample(edits, rng.randint(1, 3))})
     return cases
 
+
+# ---- an optional output stops being produced, then unchanged re-runs ------------------------------------------
+STOP_OPS = ["events_off", "visualize", "event_add", "mode"]
+
+
+def run_stops(case):
+    """[run; edit after which an optional output (events.ts, the graph files) is no longer produced - or is produced for
+    the first time; run; three unchanged re-runs]: the re-runs must touch nothing"""
+    desc = C.base_project()
+    desc["cfg"]["validation_library"] = case["mode"]
+    desc["cfg"]["visualize_deps"] = bool(case["viz"])
+    obs, steps = [], []
+    sched = [[0], []]
+    with vlib.Sandbox("c14o") as sb:
+        w = C.World(sb, case["entry"], case.get("conf", "cfile"))
+        w.set_desc(desc)
+        unchanged = []
+        for op in [None] + list(case["ops"]) + ["=", "=", "="]:
+            if op not in (None, "="):
+                desc = C.apply_edit(desc, op)
+                w.set_desc(desc)
+                steps.append(["set", C.sx_project(desc), C.sx_cfg(desc["cfg"])])
+            r = w.run()
+            steps.append(["run", sched, False, None])
+            unchanged.append(op == "=")
+            obs.append({"decision": r["decision"], "rewritten": r["rewritten"], "removed": r["removed"],
+                        "changed_bytes": r["changed_bytes"], "files": sorted(w.stat()), "text": r["text"][-200:]})
+    base = C.base_project()
+    base["cfg"]["validation_library"] = case["mode"]
+    base["cfg"]["visualize_deps"] = bool(case["viz"])
+    return sx([C.sx_project(base), C.sx_cfg(base["cfg"]), steps]), obs, unchanged, desc
+
+
+def eval_stops(cases):
+    res = vlib.pmap(run_stops, cases)
+    traces = vlib.run_runner("c14-trace", [r[0] for r in res])
+    q, idx = [], []
+    for i, (_, obs, unchanged, _) in enumerate(res):
+        for k, (o, u) in enumerate(zip(obs, unchanged)):
+            if u:
+                dec = o["decision"] if o["decision"] in ("no_commands", "up_to_date", "regenerated", "failed") else "failed"
+                q.append(sx([dec, len(set(o["rewritten"]) | set(o["changed_bytes"]) | set(o["removed"]))]))
+                idx.append((i, k))
+    idem = dict(zip(idx, vlib.run_runner("c14-idem", q)))
+    outs = []
+    for i, (case, (_, obs, unchanged, d), tr) in enumerate(zip(cases, res, traces)):
+        corr = ok = True
+        detail = None
+        for k, (o, u, mo) in enumerate(zip(obs, unchanged, tr)):
+            step_corr = o["decision"] == mo[0]
+            step_ok = idem[(i, k)] == "true" if u else o["decision"] in ("regenerated", "up_to_date")
+            if (not step_corr or not step_ok) and detail is None:
+                detail = {"step": k, "impl": {x: o[x] for x in ("decision", "rewritten", "removed", "files")}, "model": mo[0]}
+            corr &= step_corr
+            ok &= step_ok
+        dd = detail or {}
+        dd["decisions"] = [o["decision"] for o in obs]
+        if detail is not None:
+            dd["sources"] = {f["path"]: C.render_rs(f) for f in d["files"]}
+            dd["config"] = C.render_cfg(d["cfg"])
+        outs.append(Outcome(case, corr, ok, detail=dd, nontrivial=True))
+    return outs
+
+
+def stops_cases(tier):
+    cases = []
+    for entry in ("cli", "build"):
+        for conf in ("cfile", "tauri"):
+            for mode in ("none", "zod"):
+                for viz in (False, True):
+                    for op in STOP_OPS:
+                        cases.append({"entry": entry, "conf": conf, "mode": mode, "viz": viz, "ops": [op]})
+                    for ops in (["events_off", "visualize"], ["event_add", "events_off"], ["visualize", "events_off", "events_off"],
+                                ["events_off", "mode"]):
+                        cases.append({"entry": entry, "conf": conf, "mode": mode, "viz": viz, "ops": ops})
+    return cases
+
 # ---- case sets -------------------------------------------------------------------------------------------
 
 def witnesses():
@@ -543,6 +621,13 @@ def rerun_cases(tier, rng):
             for rep in range(reps):
                 cases.append({"entry": entry, "nfiles": n, "structs": True, "maps": 0, "reruns": k, "rep": rep, "mode": "none",
                               "viz": True})
+    # file names that tie under a careless sort key (case only, underscore, dash, prefix), a command and an event in each;
+    # >= 8 unchanged re-runs in fresh processes
+    for entry in ("cli", "build"):
+        for n in (2, 4, 6, 8):
+            for rep in range(2 if tier == "quick" else 10):
+                cases.append({"entry": entry, "nfiles": n, "structs": bool(rep % 2), "maps": 0, "reruns": 8, "rep": rep,
+                              "mode": "zod" if rep % 2 else "none", "tienames": True, "events_each": True})
     for entry in ("cli", "build"):
         for maps in (2, 3, 4):
             for n in (1, 2, 4):
@@ -600,6 +685,7 @@ def run(rep):
     sc = spelling_cases(rep.tier, rng)
     rep.extra["spelling_cases"] = {"total": len(sc), "by_length": {str(k): sum(1 for c in sc if len(c["seq"]) == k) for k in (2, 3, 4, 5)}}
     rep.add("spelling", eval_spelling(sc))
+    rep.add("stops", eval_stops(stops_cases(rep.tier)))
     ac = alternation_cases(rep.tier, rng)
     rep.extra["alternation_cases"] = len(ac)
     rep.add("alternation", eval_alternation(ac))
@@ -612,6 +698,8 @@ def replay(rep, payload):
         c = dict(it["case"])
         if it["stream"] == "force":
             rep.add("force", eval_force([c]))
+        elif it["stream"] == "stops":
+            rep.add("stops", eval_stops([c]))
         elif it["stream"] == "alternation":
             rep.add("alternation", eval_alternation([c]))
         elif it["stream"] == "spelling":
